@@ -200,6 +200,37 @@ impl RespParser {
     fn count(&self) -> usize { self.done.len() + self.pending.is_some() as usize }
 }
 
+/// Humphrey's own monitor stream (hook-free second trace source): events are drained from the shared
+/// receiver into per-peer-port lists. Every event of a connection is sent before the server closes
+/// the socket, so a drain after the client has observed EOF sees the complete list.
+pub struct MonSink { pub rx: std::sync::mpsc::Receiver<humphrey::monitor::event::Event>, pub by_port: std::collections::HashMap<u16, Vec<String>> }
+pub type Mon = std::sync::Arc<std::sync::Mutex<MonSink>>;
+
+pub fn mon_new() -> (humphrey::monitor::MonitorConfig, Mon) {
+    use humphrey::monitor::event::EventType as T;
+    let (tx, rx) = std::sync::mpsc::channel();
+    let cfg = humphrey::monitor::MonitorConfig::new(tx)
+        .with_subscription_to(T::ConnectionSuccess).with_subscription_to(T::ThreadPoolProcessStarted)
+        .with_subscription_to(T::RequestServedSuccess).with_subscription_to(T::RequestServedError)
+        .with_subscription_to(T::RequestTimeout).with_subscription_to(T::KeepAliveRespected)
+        .with_subscription_to(T::ConnectionClosed).with_subscription_to(T::StreamDisconnectedWhileWaiting);
+    (cfg, std::sync::Arc::new(std::sync::Mutex::new(MonSink { rx, by_port: std::collections::HashMap::new() })))
+}
+
+fn mon_take(mon: &Mon, port: u16) -> Vec<String> {
+    use humphrey::monitor::event::EventType as T;
+    let mut g = mon.lock().unwrap();
+    let evs: Vec<_> = g.rx.try_iter().collect();
+    for e in evs {
+        if let Some(p) = e.peer {
+            let k = match e.kind { T::ConnectionSuccess => "CS", T::ThreadPoolProcessStarted => "TPS", T::RequestServedSuccess => "OK",
+                T::RequestServedError => "ERR", T::RequestTimeout => "TO", T::KeepAliveRespected => "KA", T::ConnectionClosed => "CC", _ => "OTHER" };
+            g.by_port.entry(p.port()).or_default().push(k.to_string());
+        }
+    }
+    g.by_port.remove(&port).unwrap_or_default()
+}
+
 pub struct Job { pub id: i64, pub timeout: bool, pub script: Vec<Value>, pub plan: String, pub sends: Vec<usize>, pub expected_n: usize, pub final_open: bool }
 
 pub fn parse_job(v: &Value) -> Job {
@@ -269,7 +300,7 @@ fn read_some(s: &mut TcpStream, p: &mut RespParser, wait: Duration) -> (usize, b
     }
 }
 
-pub fn run_job(job: &Job, addr: SocketAddr, seed: u64) -> Value {
+pub fn run_job(job: &Job, addr: SocketAddr, seed: u64, mon: Option<&Mon>) -> Value {
     let mut rng = Rng::new(seed ^ (job.id as u64).wrapping_mul(0x9E3779B97F4A7C15));
     let elems: Vec<Elem> = job.script.iter().enumerate().map(|(i, e)| render(e, i, &mut rng)).collect();
     let segs = segments(job, &elems, &mut rng);
@@ -280,6 +311,7 @@ pub fn run_job(job: &Job, addr: SocketAddr, seed: u64) -> Value {
         "late": timeout && r.at.saturating_duration_since(since).as_millis() as u64 >= IDLE_TIMEOUT_MS * 6 / 10, "r": resp_json(r, &bodies)});
     let mut s = match TcpStream::connect(addr) { Ok(s) => s, Err(e) => return json!({"id": job.id, "error": format!("connect: {}", e)}) };
     let _ = s.set_nodelay(true);
+    let my_port = s.local_addr().map(|a| a.port()).unwrap_or(0);
     let mut p = RespParser::new();
     let mut eof = false;
     let mut last_activity = Instant::now();
@@ -349,5 +381,8 @@ pub fn run_job(job: &Job, addr: SocketAddr, seed: u64) -> Value {
         events.push(ev(if eof { "Eof" } else { "Quiet" }, 0, false, no_resp()));
     }
     let _ = eof_logged;
-    json!({"id": job.id, "timeout": job.timeout, "plan": job.plan, "script": elems.iter().map(elem_json).collect::<Vec<_>>(), "events": events})
+    // the monitor list is complete only when the server's close has been observed
+    let (monv, mon_complete) = match mon { Some(m) if eof => (mon_take(m, my_port), true), Some(m) => (mon_take(m, my_port), false), None => (vec![], false) };
+    json!({"id": job.id, "timeout": job.timeout, "plan": job.plan, "script": elems.iter().map(elem_json).collect::<Vec<_>>(), "events": events,
+           "mon": monv, "mon_complete": mon_complete})
 }
